@@ -124,10 +124,13 @@ def part1(ctx, rep, rng, n_cases):
         start = None
         if rng.random() < 0.15:
             start = {'counters': [rng.choice([65530, 65534, 65535])] + [rng.choice([0, 65535]) for _ in range(8)]}
+        # a quarter of the groups is configured through the library-wide defaults (constants.Defaults set at run time, no option
+        # passed to any constructor; the front-ends that need no port are built by their real constructors)
+        viad = rng.random() < 0.25
         for fe in fes:
             grp.append(len(cases))
             cases.append(dict(frontend=fe, framer=framer, single=single, units=units, ignore_missing=ignore, broadcast=False,
-                              chunks=chunks, mode=mode, identity=start))
+                              chunks=chunks, mode=mode, identity=start, via_defaults=viad))
         groups.append(grp)
     res = serverlib.run_both(ctx, cases)
     for grp in groups:
@@ -145,7 +148,7 @@ def part1(ctx, rep, rng, n_cases):
             rep.hist['excluded:counter-dependent-reply'] += 1
         for i in grp:
             c = cases[i]
-            case = {k: c[k] for k in ('frontend', 'framer', 'single', 'units', 'ignore_missing', 'broadcast', 'chunks')}
+            case = {k: c[k] for k in ('frontend', 'framer', 'single', 'units', 'ignore_missing', 'broadcast', 'chunks', 'via_defaults')}
             case['kind'] = 'server'
             serverlib.compare(rep, case, res[i][0], res[i][1], 'front-end vs Server.connStep')
             got = canon_real(c['frontend'], res[i][0])
